@@ -34,7 +34,7 @@ def check(prop: str, tier: str) -> int:
         checker on seeded variants of the current tree (firing variants must be reported by the named
         rule, silent twins must pass) — a failure means the checker is broken (exit 2), never a verdict."""
         from .model import AnalysisError
-        from .variants import V, summary_for
+        from .variants import V, patch_variants, summary_for
         cov = {}
         if hasattr(mod, "thorough_extra"):
             cov.update(mod.thorough_extra(A, rep) or {})
@@ -42,8 +42,8 @@ def check(prop: str, tier: str) -> int:
             return cov
         code, counts, bad = summary_for([prop])
         cov["self_validation"] = {"variants": sum(counts.values()), "results": counts,
-                                  "what": "seeded variants of the current tree re-analysed on scratch copies; firing variants must be reported by the named rule, behaviour-preserving twins must stay silent",
-                                  "ids": [x[0] for x in V if x[1] == prop]}
+                                  "what": "variants of the current tree re-analysed (never executed) on scratch copies: rule-breaking edits and the property's independently seeded changes (seeded/) must be reported; behaviour-preserving twins and the 30 sub-agent refactorings (corpus/refactorings/) must stay silent; a patch that no longer applies is skipped and counted",
+                                  "ids": [x[0] for x in V if x[1] == prop] + [x[0] for x in patch_variants([prop])]}
         if bad:
             raise AnalysisError("self-validation failed: " + "; ".join(bad))
         return cov
